@@ -4,6 +4,7 @@ from __future__ import annotations
 
 import re
 
+from pestverif.modes import WorkerDied
 from pestverif.runner import Ctx
 
 ID = "C11"
@@ -46,6 +47,9 @@ ENDINGS = [
     "a = { b }\n//! late grammar doc", 'a = { "\\u{41" }', 'a = { "\\u{}" }', 'a = { "\\u{110000}" }', 'a = { "\\x4" }',
     'a = { "\\xZZ" }', "a = { 'z'..'a' }", "a = { '\\u{110000}'..'a' }", "a = { undefined }", "a = { a }", "a = { b* }\nb = { \"\"* }",
     "a = { PEEK[a..b] }", "a = { PEEK[1 .. 2] }", "a = { b{ 1 , 2 } }", "a = { \"\\0\" }", "a = { '\\'' }", "a = _ { b }",
+    "a = { b{99999999999999999999} }", "a = { b{" + "9" * 4400 + "} }", "a = { PEEK[" + "1" * 4400 + "..] }", "a = { b{4294967296} }",
+    "a = { (!b ~ ANY)* }\nb = { b | \"x\" }", "a = { (!b ~ ANY)* }\nb = { c }\nc = { b }", "/*a" * 40, "a = { b } " + "/*a" * 30,
+    "a = { \"\\x\ud800\" }", "a = { \"\\u{\udc00}\" }", "a = { PEEK[-0..] }", "a = {\n", "a = { b }\n\n",
     "PUSH = { \"a\" }", "a = { PUSHX }", "a = { POPCORN ~ PEEKABOO ~ DROPS }", "a = { b?* }", "a = { !&b }", "a = { &&b }",
     "a = { #t = \"x\" }", "a = { #t=b }", "a = { b } a = { c }", "EOI = { \"x\" }", "a = { \"\n\" }",
 ]
@@ -70,10 +74,38 @@ def load_texts(req):
         except budget.BudgetExceeded:
             out.append(("budget",))
         except RecursionError:
-            out.append(("recursion",))
+            # Deep nesting legitimately exhausts the interpreter stack (limit 4000 here; the front end needs a
+            # handful of frames per nesting level): inconclusive. A short text cannot nest that deep, so there it
+            # is an unbounded recursion - an exception type other than PestGrammarError escaping.
+            if len(text) < SHORT_TEXT:
+                out.append(("exc", "RecursionError", "short text", f"text of {len(text)} characters"))
+            else:
+                out.append(("recursion",))
         except Exception as err:  # noqa: BLE001
             out.append(("exc", type(err).__name__, modes._where(err), modes._safe_str(err)[:160]))
     return out
+
+
+_BASE: list = []
+
+
+def column_base():
+    """0 or 1: the column this implementation prints for a grammar error at offset 0; None if unknown."""
+    if not _BASE:
+        import pest
+
+        base = None
+        try:
+            pest.Parser.from_grammar("?")
+        except pest.PestGrammarError as err:
+            tok = getattr(err, "token", None)
+            m = _POS.search(str(err))
+            if m and tok is not None and getattr(tok, "start", None) == 0 and int(m.group(2)) in (0, 1):
+                base = int(m.group(2))
+        except Exception:  # noqa: BLE001
+            pass
+        _BASE.append(base)
+    return _BASE[0]
 
 
 def check_error(err, text):
@@ -98,8 +130,12 @@ def check_error(err, text):
             lf = text.split("\n")
             sl = text.splitlines() + [""]
             ok = False
+            # Columns: the base (0 or 1) is whatever this implementation reports for an error at offset 0
+            # (calibrated once per worker); the position just past the last character of a line exists too.
+            base = column_base()
+            lo, hi = (0, 1) if base is None else (base, base)
             for lines in (lf, sl):
-                if 1 <= line <= len(lines) and 0 <= col <= len(lines[line - 1]) + 1:
+                if 1 <= line <= len(lines) and lo <= col <= len(lines[line - 1]) + hi:
                     ok = True
             if not ok:
                 if not (1 <= line <= max(len(lf), len(sl))):
@@ -110,6 +146,10 @@ def check_error(err, text):
 
 
 # ----------------------------------------------------------------------------- driver side
+
+
+SHORT_TEXT = 300
+MAX_TIMEOUTS = 8  # per shard and side; beyond it the rest of a timed-out batch is reported as not run
 
 
 def judge(out):
@@ -136,7 +176,24 @@ def run_texts(ctx: Ctx, modes, texts, label):
     for side, worker in (("raw", modes.raw), ("opt", modes.opt)):
         for b in range(0, len(texts), 200):
             part = texts[b : b + 200]
-            outs = worker.call("pestverif.props.c11:load_texts", {"texts": part})
+            try:
+                outs = worker.call("pestverif.props.c11:load_texts", {"texts": part})
+            except WorkerDied:
+                # a load that does not come back (time spent inside the C regex engine is invisible to the
+                # step budget): isolate it text by text; a wall-clock timeout is inconclusive, never a violation
+                outs = []
+                worker.timeout = 5.0
+                for t in part:
+                    if ctx.hist.get("wall_clock_timeout_inconclusive:" + side, 0) >= MAX_TIMEOUTS:
+                        outs.append(("recursion",))  # judged as 'skip'
+                        ctx.count("not_run_after_timeouts:" + side)
+                        continue
+                    try:
+                        outs.append(worker.call("pestverif.props.c11:load_texts", {"texts": [t]})[0])
+                    except WorkerDied:
+                        outs.append(("recursion",))
+                        ctx.count("wall_clock_timeout_inconclusive:" + side)
+                worker.timeout = 60.0
             for text, out in zip(part, outs):
                 ctx.evals += 1
                 ctx.count(f"{label}:{out[0]}")
@@ -236,7 +293,8 @@ def run_shard(ctx: Ctx, spec):
         @hypothesis.seed(ctx.sub_seed("text"))
         @settings(max_examples=size["texts"], deadline=None, database=None, phases=[Phase.generate],
                   suppress_health_check=list(HealthCheck))
-        @hypothesis.given(st.text(max_size=30))
+        @hypothesis.given(st.one_of(st.text(max_size=30), st.text(alphabet=st.characters(), max_size=12),
+                                    st.text(alphabet=st.sampled_from(list('ab={}"\'\\xu{}09\ud800\udfff\x00 \n/*')), max_size=14)))
         def anytext(text):
             run_texts(ctx, modes, [text, "a = { " + text + " }", 'a = { "' + text + '" }'], "st.text")
 
